@@ -277,11 +277,11 @@ def realise_simple(rec, herr_active):
         d["FirstChar"] = byte(f["fc"])
         d["LastChar"] = byte(f["fc"]) + len(f["widths"]) - 1
         wf = f.get("wform", "direct")
-        ws = list(f["widths"])
+        ws = [num(w) for w in f["widths"]]
         if wf in ("someref", "allref"):
             for i, w in enumerate(f["widths"]):
                 if wf == "allref" or i % 2 == 0:
-                    extra[110 + i] = w                    # the number as an indirect object of its own
+                    extra[110 + i] = num(w)               # the number as an indirect object of its own
                     ws[i] = Ref(110 + i)
         if wf == "arrayref":
             extra[109] = ws
@@ -291,8 +291,11 @@ def realise_simple(rec, herr_active):
         if f["mw"] >= 0 or f["file"] or f["kind"] != "Type3":
             desc = {"Type": Name("FontDescriptor"), "FontName": Name(basefont), "Flags": 32,
                     "FontBBox": [0, -200, 1000, 800], "ItalicAngle": 0, "Ascent": 800, "Descent": -200, "StemV": 80}
+            if v % 2:       # the standard types these as numbers: real values in every second realisation
+                desc.update({"FontBBox": [0.5, -200.5, 1000.5, 800.5], "ItalicAngle": -12.5, "Ascent": 800.5, "Descent": -200.5,
+                             "StemV": 80.5})
             if f["mw"] >= 0:
-                desc["MissingWidth"] = f["mw"]
+                desc["MissingWidth"] = num(f["mw"])
     if f["file"]:
         extra[100] = fp.fontfile_stream(fp.type1_header([(byte(e["c"]), gname[e["g"]][0]) for e in f["ent"]],
                                                         standard=f["std"]))
@@ -321,12 +324,12 @@ def realise_simple(rec, herr_active):
             return "(cid:%d)" % byte(val["n"])
         raise MachineryError("unexpected model text value %r" % (val,))
 
-    mwv = f["mw"] if f["mw"] >= 0 else 0
+    mwv = f["mw"] / 2.0 if f["mw"] >= 0 else 0
 
     def adv_of(w):
         sc = {"milli": 0.001, "a": FM[f["fm"]][0], "a+c": FM[f["fm"]][0] * 1 + FM[f["fm"]][2] * 1}[w["sc"]]
         if w["src"] == "W":
-            x = f["widths"][w["idx"] - 1]
+            x = f["widths"][w["idx"] - 1] / 2.0
         elif w["src"] == "MW":
             x = 0 if f["kind"] == "Std14" else mwv
         else:
@@ -359,12 +362,18 @@ def realise_simple(rec, herr_active):
                     advs.append(mwv * {"milli": 0.001, "a": FM[f["fm"]][0], "a+c": FM[f["fm"]][0] + FM[f["fm"]][2]}[sc] * FS)
         exp["t" + key] = texts
         exp["a" + key] = advs
+    exp["descent"] = desc.get("Descent") if (desc is not None and f["kind"] in ("Type1", "MMType1", "TrueType")) else None
     exp["err"] = rec["err"]
     exp["hit"] = [byte(c) for c in rec["hit"]]
     if uses_builtin(f) and f["std"] and "BuiltinStdIgnored" in rec.get("devs", []):
         exp["hit"] = list(range(256))
     exp["names"] = {g: gname[g][0] for g in gname}
     return pdf, exp
+
+
+def num(h):
+    """a model number (written in halves, see MC_SimpleFont.tla) as the PDF number: an integer, or x.5 as a real"""
+    return h // 2 if h % 2 == 0 else h / 2.0
 
 
 def close(a, b):
@@ -416,6 +425,10 @@ def compare_simple(rec, pdf, exp):
             else:
                 out.append(("width:%s" % f["kind"], "code %d: advance %r, expected %r" % (bt, adv, ai),
                             {"code": bt, "observed": adv, "expected": ai}))
+        if bt == 0 and exp.get("descent") is not None and not close(_bb[1], 700 + exp["descent"] * 0.001 * FS):
+            # not part of C06's statement (text / advance): reported as a note by the caller
+            out.append(("ext:descent", "glyph box bottom %r, expected %r from /Descent %r" % (_bb[1], 700 + exp["descent"] * 0.001 * FS,
+                                                                                              exp["descent"]), {}))
         if not (close(m[4], x) and m[5] == 700 and m[:4] == (1.0, 0.0, 0.0, 1.0)):
             out.append(("matrix", "code %d: glyph matrix %r, expected origin x=%r y=700" % (bt, m, x),
                         {"code": bt, "observed": list(m), "expected_x": x}))
@@ -502,6 +515,7 @@ def direction_a_fonts(ck, dev, jobs, futures, ppool):
     herr = "HeaderValueError" in dev
     total = 0
     devhits = {}
+    ext = {}
     for fut, job in zip(futures, jobs):
         (res, emit) = fut.result()
         (label, space, maxdiff, offwin) = job[0]
@@ -527,6 +541,11 @@ def direction_a_fonts(ck, dev, jobs, futures, ppool):
                 k += 1
                 f = rec["f"]
                 for key, what, detail in findings:
+                    if key.startswith("ext:"):
+                        ext[key] = ext.get(key, 0) + 1
+                        if ext[key] == 1:
+                            ck.note("extended coverage (outside C06's statement): %s [font: %s]" % (what, font_summary(f)))
+                        continue
                     if key.startswith("dev:"):
                         devhits[key] = devhits.get(key, 0) + 1
                     report(ck, key, "%s [font: %s]" % (what, font_summary(f)), {"kind": "font", "rec": rec, "detail": detail})
@@ -541,6 +560,7 @@ def direction_a_fonts(ck, dev, jobs, futures, ppool):
     ck.replayed += total
     ck.extra["simple_fonts_realised"] = total
     ck.extra["simple_font_deviation_hits"] = devhits
+    ck.extra["simple_font_extended_coverage_notes"] = ext
 
 
 def font_summary(f):
